@@ -111,7 +111,34 @@ def run_cancel(rep, count, mode_args, with_invalid):
                 if i % 3 == 0 and len(okst) > 1:
                     h2 = okst[rnd.randrange(len(okst))]
                     f.write(h + sp + h2 + "\t" + h + "\t" + h2 + "\n")
-        rep.coverage["grammar_boundary_probes"] = {"grammar_statements": len(cand), "accepted_alone": len(okst)}
+        # resynchronisation after an error: a statement that FAILS (cut off before its end, or not a statement at all) followed
+        # by ';' must leave nothing behind either -- the statements after it come out as they do alone.  The 48 broken prefixes
+        # were vetted on the unchanged tree (each ends where the statement loop resumes at the ';'; `SELECT {p:UInt8`, whose
+        # unterminated parameter swallows the ';' lexically, is not among them)
+        broken_prefixes = ["SELECT (1", "SELECT 1 +", "SELEC 1", "SELECT x BETWEEN 1", "INSERT INTO", "SELECT a FROM", "FROM t", "SELECT a, b FROM t WHERE",
+                           "SELECT [1, 2", "SELECT 'a' ||", "CREATE TABLE t (a UInt8", "ALTER TABLE t ADD COLUMN", "SELECT f(1, 2", "SELECT CASE WHEN 1 THEN 2",
+                           "SELECT 1 IN (1, 2", "foo bar", "SELECT * FROM t ORDER BY", "SELECT x ? 1", "SELECT CAST(1 AS", "DROP TABLE", "SELECT 1 LIMIT",
+                           "WITH x AS (SELECT 1", "SELECT a.b.", "SELECT 1 1", "SELECT DISTINCT ON", "SELECT 1 UNION", "EXPLAIN AST", "SELECT -", "SELECT NOT",
+                           "SELECT (SELECT (SELECT 1", ")", "]", "SELECT 1)", "1", "SELECT 1 FORMAT", "SELECT 1 SETTINGS", "SELECT 1 INTO OUTFILE", "GRANT", "SET",
+                           "USE", "SELECT t.", "SELECT 1 AS", "SELECT * EXCEPT", "SELECT x IS", "SELECT x NOT", "SELECT x LIKE", "SELECT x::", "SELECT INTERVAL 1"]
+        after = ["SELECT 1", "SELECT a OR b AND c", "SELECT 1 AS limit, t.order FROM t AS format", "SELECT a, b FROM t WHERE a = 1 ORDER BY b LIMIT 3",
+                 "SELECT (1, 2), [3]", "(SELECT 1)", "SELECT x BETWEEN 1 AND 2", "INSERT INTO t SELECT 1", "CREATE TABLE t (a UInt8) ENGINE = Memory",
+                 "SELECT count(*) FROM (SELECT 1 UNION ALL SELECT 2)", "DROP TABLE t", "WITH 1 AS x SELECT x", "SELECT -5 BETWEEN -7 AND 3", "SELECT a[1], t.1, x.y.z"]
+        after_h = [a.encode().hex() for a in after] + okst[::max(1, len(okst) // (150 if count <= 5000 else 3000))]
+        n_after = 0
+        with open(cases, "a") as f:
+            for pi, bp in enumerate(broken_prefixes):
+                bh = bp.encode().hex()
+                for ai, ah in enumerate(after_h):
+                    sp = sep[(pi + ai) % len(sep)].encode().hex()
+                    f.write(bh + sp + ah + "\t" + bh + "\t" + ah + "\n")
+                    n_after += 1
+                # two broken statements in a row, then the valid ones
+                bh2 = broken_prefixes[(pi * 7 + 3) % len(broken_prefixes)].encode().hex()
+                for ah in after_h[:14]:
+                    f.write(bh + "0a3b" + bh2 + "0a3b20" + ah + "\t" + bh + "\t" + bh2 + "\t" + ah + "\n")
+                    n_after += 1
+        rep.coverage["grammar_boundary_probes"] = {"grammar_statements": len(cand), "accepted_alone": len(okst), "after_error_scripts": n_after}
     outp = cases + ".out"
     rc, err = verif.parallel_map_files([os.path.join(verif.BUILD, "cancel")] + mode_args, cases, outp, timeout=3000)
     res = {"scripts": 0, "runs": 0, "violations": [], "rc": rc, "err": err[-500:], "samples": [], "multi": 0}
